@@ -375,6 +375,46 @@ func streamRoundTrip(c streamCase, prop ref.PropSizes) evid.Outcome {
 			return evid.Fail("the commands %+v put into FOpts, encrypted (EncryptFOpts), sent as %x and decrypted (DecryptFOpts) come out differently: %s", c.Cmds, air, d)
 		}
 	}
+	// more commands than FOpts can hold (the sequence repeated until it passes 15 bytes): refused, with or without
+	// EncryptFOpts before the frame is serialised - never sent with part of the commands missing
+	if c.Where == "fopts" && len(c.Cmds) > 0 && prop == nil {
+		long := append([]ref.Cmd{}, c.Cmds...)
+		longBytes, _ := ref.EncodeCmds(c.Uplink, long)
+		for len(longBytes) <= 15 {
+			long = append(long, c.Cmds...)
+			longBytes, _ = ref.EncodeCmds(c.Uplink, long)
+		}
+		key := lorawan.AES128Key{7, 6, 5, 4, 3, 2, 1, 0, 15, 14, 13, 12, 11, 10, 9, 8}
+		for _, encrypt := range []bool{false, true} {
+			sm := &lorawan.MACPayload{FHDR: lorawan.FHDR{DevAddr: lorawan.DevAddr{1, 2, 3, 4}, FCnt: 1, FOpts: gen.LibCmds(c.Uplink, long)}}
+			sp := lorawan.PHYPayload{MHDR: lorawan.MHDR{MType: lorawan.MType(mt), Major: lorawan.LoRaWANR1}, MACPayload: sm}
+			if encrypt {
+				if err := sp.EncryptFOpts(key); err != nil {
+					continue
+				}
+			}
+			air, err := sp.MarshalBinary()
+			if err != nil {
+				continue
+			}
+			// it went out: then all of it must arrive
+			var rp lorawan.PHYPayload
+			n := -1
+			if err := rp.UnmarshalBinary(air); err == nil {
+				if encrypt {
+					err = rp.DecryptFOpts(key)
+				} else {
+					err = rp.DecodeFOptsToMACCommands()
+				}
+				if err == nil {
+					n = len(rp.MACPayload.(*lorawan.MACPayload).FHDR.FOpts)
+				}
+			}
+			if n != len(long) {
+				return evid.Fail("a frame whose FOpts hold %d commands (%d bytes: %x; FOpts carry at most 15) is not refused (EncryptFOpts first: %v) but sent as %x, from which the receiver reads %d commands (-1: none)", len(long), len(longBytes), longBytes, encrypt, air, n)
+			}
+		}
+	}
 	// the decoded frame answers with another command sequence in the same field: the empty one (nil / empty slice),
 	// then the first command alone - each must travel as exactly that sequence
 	if len(c.Cmds) > 0 {
@@ -654,7 +694,7 @@ func TestProp(t *testing.T) {
 		300000, 10000000, genVal, checkVal)
 
 	evid.Rapid(r, t, "streams",
-		"rapid: command sequences per direction built to a drawn byte budget (FOpts <= 15, port 0 <= 242; a quarter exactly at the limit), including payload-less CIDs and up to 3 CIDs unknown in that direction; each command encodes to 1 + registered size (its payload alone to the same bytes); all returned slices are held until every command is encoded, then joined: the concatenation equals the model framing and decodes (DecodeFOptsToMACCommands / DecodeFRMPayloadToMACCommands) to exactly the sequence; for FOpts the sequence also travels as command values through EncryptFOpts, the wire and DecryptFOpts (LoRaWAN 1.1); the decoded frame's field is then replaced by the empty sequence (nil, empty slice) and by the first command alone and must encode as the model frame with that content. Non-trivial: >= 3 commands.",
+		"rapid: command sequences per direction built to a drawn byte budget (FOpts <= 15, port 0 <= 242; a quarter exactly at the limit), including payload-less CIDs and up to 3 CIDs unknown in that direction; each command encodes to 1 + registered size (its payload alone to the same bytes); all returned slices are held until every command is encoded, then joined: the concatenation equals the model framing and decodes (DecodeFOptsToMACCommands / DecodeFRMPayloadToMACCommands) to exactly the sequence; for FOpts the sequence also travels as command values through EncryptFOpts, the wire and DecryptFOpts (LoRaWAN 1.1); the sequence repeated until it passes 15 bytes must be refused, with or without EncryptFOpts first, never sent in part; the decoded frame's field is then replaced by the empty sequence (nil, empty slice) and by the first command alone and must encode as the model frame with that content. Non-trivial: >= 3 commands.",
 		50000, 3000000, genStream, checkStream)
 
 	evid.Rapid(r, t, "streams-with-unencodable-command",
